@@ -59,14 +59,30 @@ def sig_digits(q: Fraction) -> int:
     return len(s)
 
 
-def make_service(fmt, mn, mx, stp):
-    return _make_service(fmt, mn, type(mn).__name__, mx, type(mx).__name__, stp, type(stp).__name__)
+SPEC_TYPE = "00000035-0000-1000-8000-0026BB765291"     # target temperature: the type's own defaults are 10..38 step 0.1
+
+
+def make_service(fmt, mn, mx, stp, construct="kwargs"):
+    return _make_service(fmt, mn, type(mn).__name__, mx, type(mx).__name__, stp, type(stp).__name__, construct)
 
 
 @lru_cache(maxsize=4096)
-def _make_service(fmt, mn, _t1, mx, _t2, stp, _t3):
+def _make_service(fmt, mn, _t1, mx, _t2, stp, _t3, construct):
+    """construct: how the metadata reaches the model - constructor keywords (tests, IP discovery of a fresh model), attributes assigned after
+    construction (the BLE GATT database fetch, vendor type or a type with other defaults of its own), or the JSON entity map (IP, cache)."""
     acc = Accessory(1)
     svc = acc.add_service("0000FF00-0000-1000-8000-0026BB765291")
+    if construct in ("assign", "assign-spec"):
+        ch = svc.add_char(SPEC_TYPE if construct == "assign-spec" else CHAR_TYPE)
+        ch.perms = ["pr", "pw"]
+        ch.format = fmt
+        if stp is not None:
+            ch.minStep = stp
+        if mn is not None:
+            ch.minValue = mn
+        if mx is not None:
+            ch.maxValue = mx
+        return svc, ch
     kw = {"format": fmt, "perms": ["pr", "pw"]}
     if mn is not None:
         kw["min_value"] = mn
@@ -75,6 +91,13 @@ def _make_service(fmt, mn, _t1, mx, _t2, stp, _t3):
     if stp is not None:
         kw["min_step"] = stp
     ch = svc.add_char(CHAR_TYPE, **kw)
+    if construct == "json":
+        from aiohomekit.model import Accessories
+        accs = Accessories()
+        accs.add_accessory(acc)
+        again = Accessories.from_list(accs.serialize())
+        svc = again.aid(1).services.iid(svc.iid)
+        ch = svc.characteristics.get(ch.iid)
     return svc, ch
 
 
@@ -86,10 +109,13 @@ def num(v):
 def run_case(case, R):
     fmt, mn, mx, stp, v = case["fmt"], case.get("min"), case.get("max"), case.get("step"), case["v"]
     via = case.get("via", "build_update")
-    svc, ch = make_service(fmt, mn, mx, stp)
+    construct = case.get("construct", "kwargs")
+    if construct == "assign-spec" and (fmt != "float" or None in (mn, mx, stp)):
+        construct = "assign"          # without a declared bound the type's own default would apply; only complete declarations are compared
+    svc, ch = make_service(fmt, mn, mx, stp, construct)
     try:
         if via == "build_update":
-            out = svc.build_update({CHAR_TYPE: v})
+            out = svc.build_update({ch.type: v})
             assert len(out) == 1 and out[0][0] == svc.accessory.aid and out[0][1] == ch.iid
             res = out[0][2]
         else:
@@ -259,7 +285,7 @@ def cases(draw):
         v = draw(st.one_of(st.booleans(), st.sampled_from([0, 1, 2, -1, 1.0, 0.0, "true", "false", "True", "FALSE", "on", "off", "yes", "no",
                                                            "y", "n", "t", "f", "1", "0", "2", "maybe", "", None, "1.0", b"1", float("nan")])))
         return {"fmt": fmt, "v": v, "via": via}
-    case = {"fmt": fmt, "via": via}
+    case = {"fmt": fmt, "via": via, "construct": draw(st.sampled_from(["kwargs", "kwargs", "assign", "assign-spec", "json"]))}
     if fmt == "float":
         mn = draw(st.sampled_from([None, None, 0, 0.0, 1, 10, 10.0, -100, 0.5, -2**31, 7.2, -50.5, 35]))
         stp = draw(st.sampled_from([None, None, 1, 1.0, 2, 5, 10, 0.1, 0.5, 0.01, 0.25, 0.2, 2.5]))
